@@ -802,7 +802,14 @@ def static_prelude(s):
         [ast.unparse(x) for x in s.body[0].body] == ['package = caller_package()', "path = f'{package.__name__}:{path}'"]
 
 
+# every source function whose control flow is regenerated on every run (coverage map, tools/coverage_map.py)
+TRANSLATED = ['pyramid/url.py:URLMethodsMixin._partial_application_url', 'pyramid/url.py:parse_url_overrides',
+              'pyramid/encode.py:url_quote', 'pyramid/encode.py:quote_plus', 'pyramid/encode.py:urlencode',
+              'pyramid/url.py:URLMethodsMixin.route_path', 'pyramid/url.py:URLMethodsMixin.resource_path',
+              'pyramid/url.py:URLMethodsMixin.static_path', 'pyramid/url.py:URLMethodsMixin.current_route_path']
+
 RES_T = 'res text'
+
 GLUE_SIG = '(c : jcache) (e : env) (rs : list (text * pattern))'
 FUNCS = [
     dict(mod='pyramid/url.py', qual='URLMethodsMixin._partial_application_url', gen='gen_partial_application_url', ret=TEXT,
